@@ -109,7 +109,7 @@ def world_validate(ctx, prop, trace, nt, nd, what):
                     % (res["violated"], what, res["l"]), rp)
 
 
-def world_s2i(ctx, prop, replay_path, variants, label, defer=None):
+def world_s2i(ctx, prop, replay_path, variants, label, defer=None, keep_file=False):
     """spec -> impl: every emitted behaviour on a real World, compared after every call."""
     out = ctx.fresh("ws2i", "ndjson")
     t0 = time.time()
@@ -128,10 +128,11 @@ def world_s2i(ctx, prop, replay_path, variants, label, defer=None):
     ctx.cov["traces_validated_against_impl"] += st["runs"]
     for s in st["samples"][:1]:
         ctx.sample({"kind": "TLC behaviour replayed call by call on the real World (outcome and state equal)", "history": s})
-    try:
-        os.remove(replay_path)
-    except OSError:
-        pass
+    if not keep_file:
+        try:
+            os.remove(replay_path)
+        except OSError:
+            pass
     if defer is not None and not st["disagree"]:
         defer.append(out)            # validated together with the other 2x2 traces (one TLC start)
     else:
@@ -209,7 +210,8 @@ def world_family(ctx, prop):
     n = 5 if q else 7
     r = world_mc(ctx, prop, steps=n, view="MCView", emit_from=n, phase=2, label="emit-borrow-phase")
     world_s2i(ctx, prop, r["replay"], variants=1, label="2 inserts + every (state, &self call, outcome) within %d calls" % (n - 2),
-              defer=small)
+              defer=small, keep_file=True)
+    rb = r["replay"]
     if not q:
         # long behaviours chosen by TLC's simulator (it evaluates Emit on every successor of the last
         # step, so each of the 4 x 40 random walks yields a bundle of sibling behaviours)
@@ -222,6 +224,13 @@ def world_family(ctx, prop):
     else:
         for k in range(4):
             world_random(ctx, prop, blocks=150, length=300, seed_off=k)
+    # the library built the way `cargo build --release` builds it (no debug assertions, no overflow checks):
+    # the guard-heavy behaviours and random histories once more
+    with nodebug_pass(ctx):
+        small_nd = []
+        world_s2i(ctx, prop, rb, variants=1, label="(debug assertions off) the borrow-phase behaviours again", defer=small_nd)
+        world_random(ctx, prop, blocks=10 if q else 150, length=250, seed_off=11)
+        small += small_nd
     if prop == "C08":
         world_cell_mc(ctx, threads=3, maxops=3 if q else 4)
         if q:
